@@ -21,6 +21,7 @@ from fractions import Fraction
 from typing import List, Optional, Tuple
 
 from .common import Run, bool_s, frac_s, guarded, list_s, run_driver
+from . import c14_args
 
 META = {
     "claimed": True,
@@ -49,19 +50,43 @@ META = {
     "whole bbox, kept iff some part is not disjoint, each once; sound/complete per part); `__eq__` holds iff same shape and same "
     "footprint for every index (and provably ignores the resolution sign); `alignment` is the offset of every pixel edge of every "
     "tile; geojson index walk; from_sample_tile axes are independent; E/F transfer theorems; links to the C20 Bin1D model and the "
-    "C02 GeoBox model (resolution / boundingbox / extent of every tile).",
+    "C02 GeoBox model (resolution / boundingbox / extent of every tile).  Growth round 2 (Model/C14Args.lean, Props/C14Args.lean, "
+    "Props/C14C16.lean): the public entry points from their RAW arguments — GridSpec(crs, tile_shape, resolution, origin, flips) with "
+    "every spelling shape_/res_/origin/norm_crs_or_error accept or reject (tuple, list, Shape2d, XY/Index2d, floats truncated by int(), "
+    "NaN/inf members, wrong lengths, scalars, Resolution, numpy scalars, None/Unset/'utm'/rejected CRS) and the order in which they "
+    "are checked; END-TO-END theorems whose only hypothesis is 'the public constructor returned this object' (tiles partition the plane, "
+    "disjoint interiors, shared edges, tile GeoBox shape/resolution/footprint from raw shape + raw resolution + raw index spelling; grid "
+    "rebuilt by from_sample_tile from any tile in any spelling is the same grid; web_tiles(zoom, npix) for int/float npix has the slippy "
+    "extents); from_sample_tile's (-1,-1) sentinel per spelling (list / XY spellings are not recognised and end in AssertionError instead "
+    "of the documented ValueError — proved and replayed); ixy_ spellings of tile_geobox / gs[...]; NaN / ±inf query coordinates "
+    "(never answered with tiles; error kind and order); tiles()/tiles_from_geopolygon() as LAZY generators — any number of live "
+    "generators over one shared cache, advanced in ANY interleaving with cache.clear() at any point, observe exactly what cache-less "
+    "iterators observe (theorem schedule_transparent); __eq__ with foreign operands; geojson() incl. the no-argument branch (valid "
+    "region box as parameter) and bbox+geopolygon precedence; composition with C16's BoundingBox.from_transform: gs.tiles(geobox.boundingbox) "
+    "covers the footprint of ANY (rotated, sheared) GeoBox up to the 1e-8 band.  All of it is driven on every run (ops shape/res/idx/init/tga/"
+    "fsta/weba/ptx/idxbx/sched/schedo/eqo/beq/gjd; spellings exhaustive over a pool, error-precedence masks, zoom -900..1100), plus "
+    "model-independent oracles: spelling independence, numpy-typed tile indices of every width at |index|·pixels beyond 2^31/2^32, "
+    "exact-area judgement (Fraction Sutherland–Hodgman) of polygons whose only part crossing a tile edge is a shallow bulge / gentle arc / "
+    "spike / sliver of 1e-6 units .. 1 pixel, generator interleavings, geojson with both options, geobox footprint cover.",
     "note": "Trusted: Lean kernel + {propext, Classical.choice, Quot.sound}; shapely `disjoint` enters the polygon / multi-part "
     "theorems as a parameter with its contract as hypothesis (driver instance: separating-axis test for convex rings, validated "
     "against shapely each run); theorems are over exact rationals — IEEE rounding is covered by the bit-exact F-mode correspondence, "
     "by the transfer theorems (rounded model = exact model whenever the listed intermediates are representable; no closed-form "
     "representability criterion for fl64 is proved) and by the float-stream oracles; thread safety of a shared instance is sampled by a "
-    "time-boxed stress, not proved.  NOT mirrored in the Lean model (inventory of odc/geo/gridspec.py and math.py:568-637): CRS "
-    "normalisation `norm_crs_or_error` and the input normalisers `shape_`/`res_`/`ixy_` (argument forms), `assert isinstance(origin, XY)`; "
-    "`dimensions`, `tile_shape`, `__str__`/`__repr__`; `geojson`'s default branch (CRS valid_region, buffer, to_crs(resolution=0.5)), "
-    "its feature geometries (lon/lat conversion of the extent) and `properties`; the reprojection `to_crs(check_and_fix=True)` of the "
-    "query geometry (pyproj) and shapely's `disjoint`/`bounds` themselves; generator laziness of `tiles` (the model consumes the whole "
-    "generator; the cache is threaded per consumed tile); `__eq__` with a non-GridSpec / non-Bin1D operand (False) and the absence of "
-    "`__hash__`; pickling (`__slots__` of Bin1D); NaN/inf/overflowing inputs (only the NaN bounds of an empty geometry → ValueError).",
+    "time-boxed stress, not proved.  NOT mirrored in the Lean model (inventory of odc/geo/gridspec.py and math.py:568-637 after growth round 2): "
+    "what pyproj decides inside `norm_crs_or_error` (the model takes the outcome class valid / None / rejected / 'utm' as input); a `str` given "
+    "as shape (a Sequence of its characters) and numpy arrays compared with the (-1,-1) sentinel; non-finite or > 2^1023 resolutions, origins, "
+    "tile sizes and indices beyond 2^53 (float(int) double rounding); float-valued tile indices; `dimensions`, `__str__`/`__repr__` (the `:g` "
+    "formatting); `geojson`: the valid-region box (pyproj; a parameter of the model, recomputed by the harness with the library's own pyproj "
+    "calls), the lon/lat feature geometries and `native_crs`; the reprojection `to_crs(check_and_fix=True)` of the query geometry (pyproj) and "
+    "shapely's `disjoint`/`bounds` themselves; HOW lazily the real generators fill the cache between two next() calls is recorded as a note "
+    "only (the correspondence compares the yielded items under every schedule and the cache once all generators are exhausted — an eager "
+    "refactoring is not a property change); the absence of `__hash__`; pickling (`__slots__` of Bin1D; behavioural round trip only); "
+    "zoom < -900 (float overflow → OverflowError).  False-alarm discipline: no structural comparison of source / private names; the three "
+    "places that touch module attributes (`gridspec.math` for the dyadic-pi exact stream, `gridspec.Affine`/`GeoBox` yield points of the "
+    "thread stress, `_xbin` as a foreign `==` operand) are looked up defensively and skipped with a note when absent or ineffective; "
+    "binary64-mode differences that are rounding-level (2^-46 relative, scaled by the tile-index distance that legitimately amplifies them) "
+    "become a note, only a failing property oracle is a VIOLATION.",
     "technique": "Lean 4 proof over hand model + exact and bit-exact (binary64) differential correspondence with real code",
     "design_ref": "DESIGN.md §4 C14",
 }
@@ -198,6 +223,54 @@ def oracle_point(C, gs, sp: Spec, x: float, y: float, exact: bool):
              sig="pt|" + sp.sig())
 
 
+NP_INT_TYPES = ("int8", "int16", "int32", "int64", "uint8", "uint16", "uint32", "uint64", "intp")
+
+
+def oracle_np_index(C, gs, case, k: Tuple[int, int], full: bool = False, unsigned: bool = True):
+    """a tile index given as fixed-width numpy integers (what numpy / pandas / xarray code hands over) denotes the same tile as
+    the Python ints of the same value — whatever the width, also where |index| x tile-size-in-pixels exceeds 2^31 / 2^32"""
+    import numpy as np
+
+    ix, iy = k
+    try:
+        ref = gs[ix, iy]
+        rb = fbb(ref.boundingbox)
+    except Exception as e:  # pylint: disable=broad-except
+        C.oracle(False, "tile-geobox-raises", case, repr(e))
+        return
+    hows = ("getitem", "tile_geobox", "array-row")
+    rot = (ix * 7 + iy) % len(NP_INT_TYPES)
+    for n, name in enumerate(NP_INT_TYPES):
+        dt = getattr(np, name)
+        info = np.iinfo(dt)
+        if not (info.min <= ix <= info.max and info.min <= iy <= info.max):
+            continue
+        if name.startswith("u") and not unsigned:
+            continue      # unsigned indices only on grids whose index directions are both +1 (an index times direction -1 is not
+            #               representable in an unsigned type; how a library orders that product is its own business)
+        if not full and name not in ("int32", "uint32") and n != rot:
+            continue      # routine runs: int32 / uint32 always, one more type in rotation; search and replay: all
+        for how in (hows if full else (hows[(ix + iy + n) % 3],)):
+            try:
+                if how == "getitem":
+                    gb = gs[dt(ix), dt(iy)]
+                elif how == "tile_geobox":
+                    gb = gs.tile_geobox((dt(ix), dt(iy)))
+                else:
+                    a = np.array([ix, iy], dtype=dt)
+                    gb = gs.tile_geobox((a[0], a[1]))
+                # same tile up to float rounding (a numpy scalar may take another, equally valid, float route): 2^-46 relative
+                slack = Fraction(1, 2**46) * max([Fraction(1)] + [abs(v) for v in rb])
+                ok = (tuple(gb.shape) == tuple(ref.shape) and all(abs(Fraction(u) - Fraction(v)) <= slack for u, v in zip(tuple(gb.affine)[:6], tuple(ref.affine)[:6]))
+                      and all(abs(u - v) <= slack for u, v in zip(fbb(gb.boundingbox), rb)))
+                what = f"gs[{name}({ix}), {name}({iy})] = {tuple(map(float, fbb(gb.boundingbox)))} but gs[{ix}, {iy}] = {tuple(map(float, rb))}"
+            except Exception as e:  # pylint: disable=broad-except
+                ok, what = False, f"gs[{name}({ix}), {name}({iy})] via {how}: {e!r}"
+            C.oracle(ok, "tile-index-numpy-type-changes-tile", dict(case, dtype=name), what, sig="tile|np-index|" + name)
+            if not ok:
+                return
+
+
 def oracle_tile(C, gs, sp: Spec, k: Tuple[int, int], exact: bool):
     """shape / signed resolution / footprint size; neighbours share the edge; disjoint interiors"""
     ix, iy = k
@@ -241,6 +314,8 @@ def oracle_tile(C, gs, sp: Spec, k: Tuple[int, int], exact: bool):
     except Exception as e:  # pylint: disable=broad-except
         kc = repr(e)
     C.oracle(kc == (ix, iy), "tile-centre-lookup", case, f"centre of tile {(ix, iy)} looked up as {kc}")
+    if (ix + iy) % 2 == 0 or abs(ix) > 10**5 or abs(iy) > 10**5:
+        oracle_np_index(C, gs, case, (ix, iy), unsigned=not (sp.fx or sp.fy))
 
 
 def oracle_query(C, gs, sp: Spec, q: Tuple[float, float, float, float], exact: bool, O):
@@ -387,6 +462,7 @@ def oracle_web(C, O, z: int, npix: int, ks: List[Tuple[int, int]]):
                      f"web_tiles({z})[{i},{j}] = {tuple(map(float, (l, b, r, t)))} slippy formula {tuple(map(float, want))}",
                      sig="web|extent")
             C.sample_dev = max(getattr(C, "sample_dev", 0.0), max(float(abs(u - v)) for u, v in zip((l, b, r, t), want)))
+            oracle_np_index(C, gs, dict(case, i=i, j=j), (i, j), unsigned=False)
         # 2^z tiles per side: the world corners (just inside) map to the first / last tile
         n = 2**z
         e = float(T) / 4
@@ -454,9 +530,77 @@ def oracle_geom(C, gs, sp: Spec, shp, exact: bool, O, got=None, history=None, ki
                              f"{shp.geom_type}: tile {(ix, iy)} [{l},{b},{r},{t}] meets the geometry by more than 1e-8 but was not returned")
 
 
+# fine detail: the only part of the query that reaches over a tile boundary is a shallow bulge / a gently curved side / a thin
+# spike / a thin sliver, by amounts from 1e-6 CRS units up to a pixel (far above the 1e-8 edge tolerance)
+FINE_KINDS = ("bulge", "arc", "spike", "sliver", "notch-parcel")
 GEOM_KINDS = ("mpoly-row", "mpoly-col", "mpoly-diag", "mpoint-row", "mpoint-col", "mpoint-diag", "mline-row", "mline-col",
               "collection", "line-diag", "line-row", "line-col", "polyline", "point", "point-edge", "holed", "L", "U", "ring-thin",
-              "mpoly-holed")
+              "mpoly-holed") + FINE_KINDS
+
+
+def clip_area(ring, l, b, r, t) -> Fraction:
+    """exact area of (simple polygon `ring`, Fractions) ∩ rectangle [l,r]x[b,t]: Sutherland–Hodgman + shoelace (degenerate
+    overlapping edges produced for concave subjects cancel in the signed area)"""
+    def clip(pts, inside, cut):
+        out = []
+        for i, p in enumerate(pts):
+            q = pts[(i + 1) % len(pts)]
+            pi, qi = inside(p), inside(q)
+            if pi:
+                out.append(p)
+            if pi != qi:
+                out.append(cut(p, q))
+        return out
+
+    def cutx(x0):
+        return lambda p, q: (x0, p[1] + (q[1] - p[1]) * (x0 - p[0]) / (q[0] - p[0]))
+
+    def cuty(y0):
+        return lambda p, q: (p[0] + (q[0] - p[0]) * (y0 - p[1]) / (q[1] - p[1]), y0)
+
+    pts = list(ring)
+    for inside, cut in ((lambda p: p[0] >= l, cutx(l)), (lambda p: p[0] <= r, cutx(r)), (lambda p: p[1] >= b, cuty(b)), (lambda p: p[1] <= t, cuty(t))):
+        if not pts:
+            return Fraction(0)
+        pts = clip(pts, inside, cut)
+    a = Fraction(0)
+    for i, p in enumerate(pts):
+        q = pts[(i + 1) % len(pts)]
+        a += p[0] * q[1] - q[0] * p[1]
+    return abs(a) / 2
+
+
+def oracle_area(C, gs, sp: Spec, shp, exact: bool, O, kind=""):
+    """a polygon query judged by the EXACT area its polygon shares with every tile of a window around it: a tile sharing more
+    area than fits into the 1e-8 edge band must be returned, a returned tile must at least touch the polygon"""
+    case = {"op": "geom", "grid": sp.tok(), "kind": kind, "wkb": shp.wkb_hex, "wkt": shp.wkt[:300], "area": True}
+    try:
+        got = {tuple(map(int, k)) for k, _ in ltiles(gs.tiles_from_geopolygon(O.geom.Geometry(shp, CRS)))}
+        ring = [(Fraction(x), Fraction(y)) for x, y in list(shp.exterior.coords)[:-1]]
+        xs, ys = [p[0] for p in ring], [p[1] for p in ring]
+        k0 = tuple(map(int, gs.pt2idx(float(min(xs)), float(min(ys))).xy))
+        k1 = tuple(map(int, gs.pt2idx(float(max(xs)), float(max(ys))).xy))
+    except Exception as e:  # pylint: disable=broad-except
+        C.oracle(False, "polygon-query-raises", case, repr(e))
+        return
+    big = max([sp.scale()] + [abs(v) for v in xs + ys])
+    s = Fraction(0) if exact else Fraction(1, 10**9) * big
+    if (abs(k1[0] - k0[0]) + 3) * (abs(k1[1] - k0[1]) + 3) > 150:
+        return
+    for ix in range(min(k0[0], k1[0]) - 1, max(k0[0], k1[0]) + 2):
+        for iy in range(min(k0[1], k1[1]) - 1, max(k0[1], k1[1]) + 2):
+            l, b, r, t = fbb(gs[ix, iy].boundingbox)
+            a = clip_area(ring, l, b, r, t)
+            band = 2 * (TOL + s) * ((r - l) + (t - b)) + Fraction(1, 10**12) * big * big
+            if (ix, iy) not in got:
+                C.oracle(a <= band, "polygon-query-misses-overlap-area", dict(case, tile=[ix, iy]),
+                         f"{kind}: tile {(ix, iy)} shares an area of {float(a):g} square units with the query (edge band is {float(band):g}) "
+                         f"but was not returned; returned {sorted(got)[:10]}", sig="geom|area|" + kind)
+            else:
+                a2 = clip_area(ring, l - s - TOL, b - s - TOL, r + s + TOL, t + s + TOL)
+                import shapely.geometry as sg
+                C.oracle(a2 > 0 or shp.intersects(sg.box(float(l - s), float(b - s), float(r + s), float(t + s))), "polygon-query-returns-disjoint-tile",
+                         dict(case, tile=[ix, iy]), f"{kind}: tile {(ix, iy)} returned but shares no area with the query", sig="geom|area|" + kind)
 
 
 def gen_shape(rng, sp: Spec, lattice: bool, kind: str, origin_tile=None):
@@ -539,6 +683,54 @@ def gen_shape(rng, sp: Spec, lattice: bool, kind: str, origin_tile=None):
         b = a + rng.choice([2, 3])
         return sg.Polygon([XY(a, a), XY(b, a), XY(b, b), XY(a, b)],
                           [[XY(a + w, a + w), XY(a + w, b - w), XY(b - w, b - w), XY(b - w, a + w)]])
+    if kind in FINE_KINDS:
+        pix = float(min(abs(Fraction(sp.rx)), abs(Fraction(sp.ry))))
+        big = float(max(sp.scale(), abs(L) + 4 * sp.szx, abs(Bm) + 4 * sp.szy))
+        lo = 1e-6 if lattice else max(1e-6, 40e-9 * big)     # float grids: well above the oracle's rounding slack
+
+        def small(hi):
+            hi = max(hi, lo * 2)
+            return math.exp(rng.uniform(math.log(lo), math.log(hi)))
+
+        # work in a frame where the crossed boundary is "north" (v = 1 tile); side picks the real direction
+        side = rng.choice("NSEW")
+        span = rng.choice([1, 1, 2, 3])       # tiles along the boundary
+
+        def P(u, v, du=0.0, dv=0.0):
+            """u along the boundary (tiles), v across it (tiles, boundary at v=1), offsets in CRS units"""
+            if side == "N":
+                x, y = XY(u, v); return (x + du, y + dv)
+            if side == "S":
+                x, y = XY(u, 1 - v); return (x + du, y - dv)
+            if side == "E":
+                x, y = XY(v, u); return (x + dv, y + du)
+            x, y = XY(1 - v, u); return (x - dv, y + du)
+
+        u0, u1 = fr(0, 0.5), span - 1 + fr(0.5, 1)
+        v0 = fr(0, 0.5)
+        if kind == "bulge":       # side ends `gap` short of the boundary, one mid vertex reaches `depth` beyond it
+            gap, depth = small(pix), small(pix)
+            um = u0 + (u1 - u0) * Fraction(rng.randint(2, 6), 8)
+            return sg.Polygon([P(u0, v0), P(u1, v0), P(u1, 1, 0, -gap), P(um, 1, 0, depth), P(u0, 1, 0, -gap)])
+        if kind == "notch-parcel":  # the demo's shape: parcel half a pixel short, shallow wide bulge a fraction of a pixel over
+            gap, depth = pix * rng.choice([0.05, 0.01, 0.03]), pix * rng.choice([0.06, 0.02, 0.04, 0.001])
+            return sg.Polygon([P(u0, v0), P(u1, v0), P(u1, 1, 0, -gap), P((u0 + u1) / 2, 1, 0, depth), P(u0, 1, 0, -gap)])
+        if kind == "arc":         # gently curved side with many vertices peaking `depth` beyond the boundary
+            gap, depth = small(pix), small(pix)
+            n = rng.choice([12, 40, 90])
+            pts = [P(u0, v0), P(u1, v0)]
+            for i in range(n + 1):
+                tt = 2 * Fraction(i, n) - 1
+                pts.append(P(u1 - (u1 - u0) * Fraction(i, n), 1, 0, -gap + (gap + depth) * float(1 - tt * tt)))
+            return sg.Polygon(pts)
+        if kind == "spike":       # thin spike of width `w` crossing the boundary by `depth`
+            w, depth = small(pix), small(4 * pix)
+            um = u0 + (u1 - u0) / 2
+            return sg.Polygon([P(u0, v0), P(u1, v0), P(u1, Fraction(3, 4)), P(um, Fraction(3, 4), w, 0), P(um, 1, w / 2, depth), P(um, Fraction(3, 4)),
+                               P(u0, Fraction(3, 4))])
+        # sliver: a long thin quadrilateral along the boundary, straddling it: from `gap` below to `depth` above
+        gap, depth = small(pix), small(pix)
+        return sg.Polygon([P(u0, 1, 0, -gap), P(u1, 1, 0, -gap), P(u1, 1, 0, depth), P(u0, 1, 0, depth)])
     if kind == "mpoly-holed":
         a, b = Fraction(1, 8), 2 + Fraction(7, 8)
         h0, h1 = Fraction(7, 8), 2 + Fraction(1, 8)
@@ -558,6 +750,8 @@ def geom_queries(R_or_C, O, gs, sp: Spec, rng, lattice: bool, exact: bool, kinds
         if shp.is_empty or not shp.is_valid:
             continue
         oracle_geom(R_or_C, gs, sp, shp, exact, O, kind=kind)
+        if shp.geom_type == "Polygon" and not shp.interiors:
+            oracle_area(R_or_C, gs, sp, shp, exact, O, kind=kind)
         case = {"op": "geom", "grid": sp.tok(), "kind": kind, "wkb": shp.wkb_hex, "wkt": shp.wkt[:300], "cache": True}
         try:
             g = O.geom.Geometry(shp, CRS)
@@ -815,7 +1009,9 @@ def thread_stress(C, O, sp: Spec, budget_s: float, seed: int, nthreads: int = 6)
     bad: List[str] = []
     stop = time.time() + budget_s
     mod = O.gridspec
-    real_aff, real_gb = mod.Affine, mod.GeoBox
+    # yield points are injected only where the module still exposes these names (an odc-geo that imports them differently is
+    # stressed without them)
+    real_aff, real_gb = getattr(mod, "Affine", None), getattr(mod, "GeoBox", None)
 
     def slow(ctor):
         def make(*a, **kw):
@@ -838,14 +1034,20 @@ def thread_stress(C, O, sp: Spec, budget_s: float, seed: int, nthreads: int = 6)
     old = _sys.getswitchinterval()
     try:
         _sys.setswitchinterval(1e-6)
-        mod.Affine, mod.GeoBox = slow(real_aff), slow(real_gb)
+        if real_aff is not None:
+            mod.Affine = slow(real_aff)
+        if real_gb is not None:
+            mod.GeoBox = slow(real_gb)
         ths = [threading.Thread(target=worker, args=(n,)) for n in range(nthreads)]
         for th in ths:
             th.start()
         for th in ths:
             th.join()
     finally:
-        mod.Affine, mod.GeoBox = real_aff, real_gb
+        if real_aff is not None:
+            mod.Affine = real_aff
+        if real_gb is not None:
+            mod.GeoBox = real_gb
         _sys.setswitchinterval(old)
     C.oracle(not bad, "shared-instance-concurrency", case, bad[0] if bad else "", sig="threads|" + sp.sig())
     return not bad
@@ -1168,7 +1370,13 @@ def drift_equal(line: str, real: str, model: str, safe: bool) -> bool:
         fa, fb = [Fraction(x) for x in a], [Fraction(x) for x in b]
     except (ValueError, ZeroDivisionError):
         return False
-    tol = Fraction(1, 2**46) * max([Fraction(1)] + [abs(v) for v in fa + fb])
+    # rounding of a rebuilt grid is amplified by the distance (in tiles) between the sample tile and the probed tile: an ulp in
+    # the tile size times the index offset lands in the origin — scale the slack by the largest index-like integer of the line
+    amp = 1
+    for tok in _ATOM.split(line):
+        if tok.lstrip("-").isdigit() and len(tok) <= 9:
+            amp = max(amp, abs(int(tok)))
+    tol = Fraction(1, 2**46) * max([Fraction(1)] + [abs(v) for v in fa + fb]) * (1 + amp)
     return all(abs(u - v) <= tol for u, v in zip(fa, fb))
 
 
@@ -1190,6 +1398,9 @@ def flush_fbuf(R: Run):
         diff = [(b, m) for b, m in zip(buf, outs) if b[1] != m]
         if diff and all(drift_equal(b[0], b[1], m, b[3]) for b, m in diff):
             drift = [b[0] for b, _ in diff]
+        elif diff:
+            R.extra["binary64_lines_differing_beyond_rounding"] = [{"line": b[0][:400], "real": b[1][:300], "model": m[:300]}
+                                                                   for b, m in diff if not drift_equal(b[0], b[1], m, b[3])][:5]
     skip = set(drift)
     for line, out, sig, _ in buf:
         if line in skip:
@@ -1198,7 +1409,7 @@ def flush_fbuf(R: Run):
     if drift:
         R.count("F-mode-rounding-drift", len(drift))
         R.notes.append(f"{len(drift)} of {len(buf)} binary64-mode lines differ from the real code by float rounding only "
-                       f"(<=1.4e-14 relative, no decision changed away from a boundary), e.g. {drift[0]}")
+                       f"(<=2^-46 relative x tile-index distance, no decision changed away from a boundary), e.g. {drift[0]}")
 
 # ----------------------------------------------------------------------------- case emitters
 def emit_grid(R: Run, O, sp: Spec, modes: str):
@@ -1512,6 +1723,11 @@ def run(R: Run):
         geom_queries(R, O, sp.make(O), sp, rng, True, True, rng.sample(GEOM_KINDS, R.pick(8, len(GEOM_KINDS))))
     for sp in rng.sample(exact_specs, min(len(exact_specs), R.pick(30, 300))):
         geom_queries(R, O, sp.make(O), sp, rng, False, False, rng.sample(GEOM_KINDS, R.pick(5, 10)))
+    # fine detail crossing a tile boundary (shallow bulges, gentle arcs, spikes, slivers): every kind on every selected grid
+    for sp in rng.sample(lattice, R.pick(12, 64)):
+        geom_queries(R, O, sp.make(O), sp, rng, True, True, FINE_KINDS)
+    for sp in rng.sample(exact_specs, min(len(exact_specs), R.pick(8, 100))):
+        geom_queries(R, O, sp.make(O), sp, rng, False, False, FINE_KINDS)
 
     # --- histories: ONE caller-supplied geobox_cache shared by a sequence of different bbox / polygon queries
     #     (state carried across calls); every step is compared with the stateless query and the shapely oracle
@@ -1584,8 +1800,11 @@ def run(R: Run):
         gs = sp.make(O)
         emit_grid(R, O, sp, "F")
         tsx, tsy = float(sp.szx), float(sp.szy)
-        for _ in range(5):
+        for n5 in range(5):
             k = (rng.randint(-50, 50), rng.randint(-50, 50))
+            if n5 == 4:     # far away: |index| x tile size in pixels beyond 2^31 / 2^32 / 2^33
+                far_i = lambda npx: rng.choice([1, -1]) * (rng.choice([2**31, 2**32, 2**33]) // npx + rng.randint(0, 1000))
+                k = (far_i(sp.nx), far_i(sp.ny))
             emit_tile(R, O, gs, sp, k, "F")
             oracle_tile(R, gs, sp, k, False)
             # points on / next to the edges of that tile as the code reports them, and inside
@@ -1627,7 +1846,7 @@ def run(R: Run):
             oracle_polygon(R, gs, sp, pts, False, O)
         if rng.random() < 0.5:
             emit_history(R, O, gs, sp, gen_history(rng, sp, False), "F", False)
-        geom_queries(R, O, gs, sp, rng, False, False, rng.sample(GEOM_KINDS, 3))
+        geom_queries(R, O, gs, sp, rng, False, False, rng.sample(GEOM_KINDS, 3) + [rng.choice(FINE_KINDS)])
         jb = gs[j].boundingbox
         oracle_sample_tile(R, O, tuple(jb), sp.ny, sp.nx, j[0], j[1], sp.fx, sp.fy, k)
 
@@ -1845,14 +2064,22 @@ def run(R: Run):
     corr(R, f"c14 web F {fs(P_WEB)} 3 -1 0 0 0 0", lambda: probe_s(O.GridSpec.web_tiles(3, -1), 0.0, 0.0, (0, 0)))
     corr(R, f"c14 web F {fs(P_WEB)} 3 0 0 0 0 0", lambda: probe_s(O.GridSpec.web_tiles(3, 0), 0.0, 0.0, (0, 0)))
     # (b) exact stream: math.pi substituted by a short dyadic so that every operation is exact (E mode)
-    real_math = O.gridspec.math
+    # (defensive: the substitution goes through the module attribute `gridspec.math`; if an odc-geo spells its import differently
+    #  the substitution has no effect — detected by probing zoom 0 — and this exact stream is skipped with a note)
+    real_math = getattr(O.gridspec, "math", None)
     try:
-        for pi_sub in (3.140625, 3.0, 3.25):
+        for pi_sub in ((3.140625, 3.0, 3.25) if real_math is not None and hasattr(real_math, "pi") else ()):
             fake = types.SimpleNamespace(**{k: getattr(real_math, k) for k in dir(real_math) if not k.startswith("__")})
             fake.pi = pi_sub
             O.gridspec.math = fake
             Pq = pi_sub * 6378137
             assert Fraction(Pq) == Fraction(pi_sub) * 6378137
+            probe0 = guarded_obj(lambda: O.GridSpec.web_tiles(0).tile_size.x)
+            if probe0 is None or Fraction(probe0) != 2 * Fraction(Pq):
+                R.count("web|E|dyadic-pi-substitution-ineffective")
+                R.notes.append("web_tiles exact stream skipped: substituting gridspec.math.pi has no effect on this odc-geo "
+                               "(the binary64 stream with the real pi and the slippy-map oracle still ran)")
+                break
             pbits = Fraction(Pq).numerator.bit_length()
             for z in range(0, 25):
                 if pbits + z > 50:
@@ -1864,7 +2091,8 @@ def run(R: Run):
                     corr(R, f"c14 web E {fs(Pq)} {z} 256 {fs(px)} {fs(py)} {k[0]} {k[1]}",
                            lambda: probe_s(O.GridSpec.web_tiles(z), px, py, k), sig="web|E|dyadic-pi")
     finally:
-        O.gridspec.math = real_math
+        if real_math is not None:
+            O.gridspec.math = real_math
 
     # --- the proved corner: thin query widened (idx_bounds_exact_thin_cex), replayed on the real code
     sp = Spec(10, 10, 0.5, -0.5, 0.0, 0.0, False, False)
@@ -1882,6 +2110,13 @@ def run(R: Run):
     R.extra["web_tiles_max_deviation_m_zoom_0_24"] = getattr(R, "sample_dev", None)
     if hz:
         R.notes.append("web_tiles beyond zoom 24 (outside DESIGN's range; float rounding only): " + hz[-1])
+
+    # --- growth round 2: public entry points from their RAW arguments, IEEE specials, lazy generators, geojson()
+    import sys as _sys
+    import time as _time
+    _t0 = _time.time()
+    c14_args.run_args(R, O, _sys.modules[__name__], lattice, presets)
+    R.extra["raw_argument_part_seconds"] = round(_time.time() - _t0, 1)
 
     R.assumptions.append("shapely/GEOS `disjoint`/`intersects` is the reference for the polygon filter "
                          "(Spec/ConvexDisjoint is validated against it on every run)")
@@ -2009,7 +2244,7 @@ def search(R: Run, mismatches):
                                    t[11] == "T", t[12] == "T", (int(t[15]), int(t[16])))
             elif op == "web":
                 z = int(t[4])
-                if 0 <= z <= 30:
+                if 0 <= z <= 24:     # beyond zoom 24 the slippy-map oracle fails on today's code (recorded finding), see run()
                     n = 2**z
                     oracle_web(C, O, z, int(t[5]), [(0, 0), (n - 1, n - 1), (int(t[8]), int(t[9]))])
         except Exception:  # pylint: disable=broad-except
@@ -2037,11 +2272,21 @@ def search(R: Run, mismatches):
             pass
         if C.fail:
             return C.fail
-    for z in (0, 1, 2, 7, 18):
+    for z in (0, 1, 2, 7, 18, 24):
         n = 2**z
         oracle_web(C, O, z, 256, [(0, 0), (n - 1, n - 1), (n // 2, n // 3)])
         if C.fail:
             return C.fail
+    try:
+        spb = Spec(4000, 4000, 25.0, -25.0, 0.0, 0.0, False, True)
+        gsb = spb.make(O)
+        for kb in ((600000, -700000), (-2**31 // 4000 - 7, 2**32 // 4000 + 3), (2**40, -2**40), (3, 5), (0, 0)):
+            oracle_tile(C, gsb, spb, kb, False)
+            oracle_np_index(C, gsb, {"op": "tile", "grid": spb.tok(), "ix": kb[0], "iy": kb[1]}, kb, full=True, unsigned=False)
+        if C.fail:
+            return C.fail
+    except Exception:  # pylint: disable=broad-except
+        pass
     try:
         import shapely.geometry as sg
         roundtrip_values(C, O, [value_item(O, rec) for rec in (["spec", "3 2 -3/4 1/4 -3/4 5/2 T T"], ["web", 3, 256],
@@ -2052,6 +2297,12 @@ def search(R: Run, mismatches):
             thread_stress(C, O, Spec(3, 2, -0.75, 0.25, -0.75, 2.5, True, True), 3.0, 1)
     except Exception:  # pylint: disable=broad-except
         pass
+    if not C.fail:
+        try:
+            import sys as _sys
+            c14_args.battery(C, O, _sys.modules[__name__])
+        except Exception:  # pylint: disable=broad-except
+            pass
     return C.fail
 
 
@@ -2064,7 +2315,10 @@ def replay(R: Run, rec) -> int:
     C = Collector()
     op = case.get("op")
     f = lambda s: float(Fraction(s))
-    if op == "bigcrs":
+    if isinstance(op, str) and op.startswith("a:"):
+        import sys as _sys
+        c14_args.replay_args(C, O, _sys.modules[__name__], case)
+    elif op == "bigcrs":
         import shapely
         shp = shapely.from_wkb(bytes.fromhex(case["wkb"]))
         print("geometry (EPSG:4326):", shp.wkt[:300])
@@ -2091,6 +2345,8 @@ def replay(R: Run, rec) -> int:
             oracle_history(C, gs, sp, steps_from_json(case["history"]), False, O)
         else:
             oracle_geom(C, gs, sp, shp, False, O)
+            if shp.geom_type == "Polygon" and not shp.interiors:
+                oracle_area(C, gs, sp, shp, False, O, kind=case.get("kind", ""))
             # cache variants of the same geometry
             try:
                 g = O.geom.Geometry(shp, CRS)
@@ -2130,6 +2386,7 @@ def replay(R: Run, rec) -> int:
             oracle_point(C, gs, sp, f(case["x"]), f(case["y"]), False)
         elif op == "tile":
             oracle_tile(C, gs, sp, (case["ix"], case["iy"]), False)
+            oracle_np_index(C, gs, case, (case["ix"], case["iy"]), full=True, unsigned=not (sp.fx or sp.fy))
         elif op == "tiles" or "bbox" in case:
             q = tuple(f(v) for v in case["bbox"])
             print("idx_bounds on the real code:", guarded(lambda: str(tuple(map(int, gs.idx_bounds(O.BoundingBox(*q, CRS)))))))
